@@ -1073,7 +1073,10 @@ def run_long(chk, Q, drv, judge, weibull, gumbel, gumbelmin):
             except Exception:                                      # noqa
                 chk.disagree("est.long." + what, inp, o, "ok ...")
                 continue
-            if len(m) != len(im) or not all(close(a_, float(b_), 1e-8) for a_, b_ in zip(m, im)):
+            # (location-type results are differences of large sums: their rounding error over 10^4 .. 10^5 terms -- left fold in the
+            # model, pairwise summation in numpy -- is relative to the scale of the sample, not to the location itself)
+            sc = max([abs(float(v)) for v in im[:2]] + [0.0]) if len(im) >= 2 else 0.0
+            if len(m) != len(im) or not all(close(a_, float(b_), 1e-8) or abs(a_ - float(b_)) <= 1e-9 * sc for a_, b_ in zip(m, im)):
                 chk.disagree("est.long." + what, inp, m, [float(v) for v in im])
 
 
